@@ -356,10 +356,15 @@ def _hi(v):
 
 
 SIDES = [(lo, hi) for lo in LO for hi in HI if _lo(lo) <= _hi(hi)]
+# bounds that need more significant digits than a short %g / %f rendering keeps, and non-dyadic decimals
+LONG = [(123456.789, 1234567.891), (None, 0.7654321), (-0.1234567, 0.7654321), (-1234567.891, None), (0.1, 0.3),
+        (1e-07, 2.5e-05), (-3.0000001, 3.0000001)]
+SIDES = SIDES + LONG
 # reduced side sets for the larger dimensions (every kind of side: open, None, inf, degenerate, stripped zero, two digits, huge)
 SIDES_B = [(None, None), (-INF, INF), (None, 0.5), (-1.0, INF), (-1.0, 3.0), (0.5, 0.5), (0.0, 0.0), (-INF, 0.0), (0.0, None),
            (-10.0, 10.0), (0.5, 3.0), (-BIG, BIG), (3.0, 10.0), (-10.0, -1.0)]
-SIDES_C = [(None, None), (-1.0, 3.0), (0.5, 0.5), (-INF, 0.0), (0.0, None), (-10.0, 10.0)]
+SIDES_B = SIDES_B + LONG[:3]
+SIDES_C = [(None, None), (-1.0, 3.0), (0.5, 0.5), (-INF, 0.0), (0.0, None), (-10.0, 10.0), LONG[0]]
 EDGE3 = [-BIG, 0.5, BIG]
 
 
@@ -444,9 +449,130 @@ def shard_bounds(item):
     return T
 
 
+# ------------------------------------------------------------------ (H) histories: a compiled constraint is a value
+# programs with named constants handed over in `locals`; 'tol'/'rel' are the documented way to set the strictness margin
+HIST = [
+    ('x0 = a*x1 + b', {'a': 2.0, 'b': 1.0}),
+    ('x0 = a*x1 + b', {'a': 5.0, 'b': -3.0}),
+    ('x0 > q', {'q': 1.0}),
+    ('x0 > q', {'q': -2.5}),
+    ('x0 <= x1 + q', {'q': 0.5}),
+    ('x0 <= x1 + q', {'q': -2.0}),
+    ('x1 >= 3', None),
+    ('x0 < 2', {'tol': 0.25, 'rel': 0.0}),      # disturbers: judged differentially only
+    ('x0 > 1.', {'tol': 0.0, 'rel': 0.0}),
+]
+HIST_JUDGED = 7          # the first seven use the default margin and are also judged against their relation
+HGRID = [-3.0, -1.0, 0.0, 0.5, 1.0, 2.0, 3.0]
+
+
+def hist_relations(text, consts):
+    """the program with its named constants written out (the oracle's own substitution), parsed for judge()"""
+    import re
+    for name, val in (consts or {}).items():
+        if name not in ('tol', 'rel'):
+            text = re.sub(r'\b%s\b' % re.escape(name), '(%r)' % float(val), text)
+    return [(r, r.isolated(), r.cmp in ('<', '>')) for r in R.parse(text, 'x', float_literals=True)]
+
+
+def build_with(text, consts):
+    import mystic.symbolic as ms
+    with contextlib.redirect_stdout(io.StringIO()):
+        return ms.generate_constraint(ms.generate_solvers(text, variables='x', nvars=2, locals=dict(consts) if consts else None))
+
+
+def shard_history(item):
+    """every ordered sequence of `depth` distinct programs: build them in turn; after each build every function
+    built so far is applied to the whole grid again and must return exactly what it returned when it was new
+    (and, for the judged programs, must satisfy its own relation with its own constants)"""
+    _, first, depth = item
+    T = Tally()
+    pts = [list(p) for p in itertools.product(HGRID, repeat=2)]
+    others = [k for k in range(len(HIST)) if k != first]
+    for tail in itertools.permutations(others, depth - 1):
+        seq = (first,) + tail
+        built = []      # (index, function, outputs when new)
+        T.count('traces')
+        for pos, k in enumerate(seq):
+            text, consts = HIST[k]
+            case = {'kind': 'history', 'sequence': list(seq[:pos + 1])}
+            try:
+                c = build_with(text, consts)
+            except Exception as e:
+                T.violate({'part': 'history', 'clause': 'build_raised', 'error': type(e).__name__}, case,
+                          'generate_solvers(%r, locals=%r) raised %s: %s' % (text, consts, type(e).__name__, e))
+                break
+            outs = []
+            for x in pts:
+                y, err = apply(c, x, False)
+                outs.append(key(y) if y is not None else ('raised', err))
+            built.append((k, c, outs))
+            T.count('transitions', len(pts))
+            if k < HIST_JUDGED:
+                rels = hist_relations(text, consts)
+                for x, o in zip(pts, outs):
+                    if o and o[0] == 'raised':
+                        continue
+                    y = list(unkey(o))
+                    for clause, extra, msg in judge(rels, x, y):
+                        T.violate({'part': 'history', 'clause': clause, 'position': 'first' if pos == 0 else 'later'},
+                                  dict(case, x=x), 'after building %r: %r with locals %r: %s' % ([HIST[j][0] for j in seq[:pos + 1]], text, consts, msg))
+                        break
+            # every earlier function again
+            for (j, cj, oj) in built[:-1]:
+                again = []
+                for x in pts:
+                    y, err = apply(cj, x, False)
+                    again.append(key(y) if y is not None else ('raised', err))
+                T.count('transitions', len(pts))
+                if again != oj:
+                    i = [a != b for a, b in zip(again, oj)].index(True)
+                    T.violate({'part': 'history', 'clause': 'changed_by_a_later_build',
+                               'same_text': HIST[j][0] == text, 'later_sets_tolerance': bool(consts and 'tol' in consts)},
+                              dict(case, x=pts[i], earlier=j),
+                              'constraint from %r (locals %r) returned %r at %r when new, and %r after generate_solvers(%r, locals=%r)'
+                              % (HIST[j][0], HIST[j][1], list(unkey(oj[i])) if oj[i][0] != 'raised' else oj[i], pts[i],
+                                 list(unkey(again[i])) if again[i][0] != 'raised' else again[i], text, consts))
+                    break
+        T.state(('H', seq, tuple(tuple(o) for _, _, o in built)))
+        if len(set(HIST[k][0] for k in seq)) < len(seq) or any(HIST[k][1] and 'tol' in HIST[k][1] for k in seq[1:]):
+            T.nontriv(('H', seq))
+    T.hist('programs', 'history')
+    if T.n.get('traces'):
+        T.sample({'history': [HIST[k] for k in ((first,) + tuple(others[:depth - 1]))]})
+    return T
+
+
+def unkey(k):
+    return [float('nan') if v is None else v for v in k]
+
+
+def replay_history(case):
+    """rebuild the recorded sequence; report relation failures and any change of an earlier function"""
+    seq = case['sequence']
+    x = case.get('x')
+    out = []
+    built = []
+    for pos, k in enumerate(seq):
+        text, consts = HIST[k]
+        c = build_with(text, consts)
+        built.append((k, c, apply(c, x, False)))
+        for (j, cj, oj) in built[:-1]:
+            again = apply(cj, x, False)
+            if again != oj:
+                out.append('constraint from %r (locals %r) at %r: %r when new, %r after building %r (locals %r)'
+                           % (HIST[j][0], HIST[j][1], x, oj, again, text, consts))
+    k = seq[-1]
+    if k < HIST_JUDGED and built[-1][2][0] is not None:
+        text, consts = HIST[k]
+        rels = hist_relations(text, consts)
+        out += [m for _, _, m in judge(rels, x, built[-1][2][0])]
+    return out
+
+
 # ------------------------------------------------------------------ driver
 def _dispatch(item):
-    return {'S': shard_single, 'P': shard_pairs, 'B': shard_bounds}[item[0]](item)
+    return {'S': shard_single, 'P': shard_pairs, 'B': shard_bounds, 'H': shard_history}[item[0]](item)
 
 
 def _chunks(seq, k):
@@ -494,6 +620,8 @@ def run(ctx):
     boxes += [([a[0], b[0]], [a[1], b[1]]) for a in s2 for b in s2]
     boxes += [([a[0], b[0], c[0]], [a[1], b[1], c[1]]) for a in s3 for b in s3 for c in s3]
     items += [('B', ch, both if th else (False,)) for ch in _chunks(boxes, 6)]
+    # (H) every ordered sequence of 2 (thorough 3) distinct programs of the history alphabet
+    items += [('H', first, 3 if th else 2) for first in range(len(HIST))]
     # interleave the kinds so that the pool stays busy
     by = {}
     for it in items:
@@ -508,6 +636,7 @@ def run(ctx):
         'pair_layouts': playouts, 'pair_right_hand_side_combinations': {k: len(v) for k, v in combos.items()} if th else combos,
         'pair_right_hand_sides': PAIR_RHS, 'pair_programs': len(pairs), 'same_lhs_pairs': SAME_LHS,
         'bound_sides_dim1(lo,hi)': SIDES, 'bound_sides_dim2': 'as dim1' if th else s2, 'bound_sides_dim3': s3, 'boxes': len(boxes),
+        'history_programs(text,locals)': [list(map(str, h)) for h in HIST], 'history_depth': 3 if th else 2,
         'containers': 'list and ndarray' if th else 'list everywhere; ndarray for schemes x3.i0 and x12.i10',
         'points': 'values^3 over the variables a line mentions (other coordinates hold distinct fillers 10+k/4) plus, for every value '
                   'of the right-hand variables, the isolated variable exactly on the boundary and one ulp either side',
@@ -543,6 +672,8 @@ def _unjson(v):
 def replay(case):
     case = _unjson(case)
     T = Tally()
+    if case['kind'] == 'history':
+        return replay_history(case)
     if case['kind'] == 'bounds':
         mn, mx = case['min'], case['max']
         import mystic.constraints as mc
